@@ -137,6 +137,8 @@ class Universe:
 
 
 class FullUniverse:
+    contracted = {}
+
     """obligations of functions that had to be quarantined because their anchors were lost, read from the sidecars
     directly (the woven crate no longer contains them)"""
 
@@ -632,24 +634,40 @@ def decide(pid, uni, ana, known):
         for (fname, fnpath) in hosts:
             if p.get('fn') == last_seg(fnpath) and p.get('woven', '').startswith(fname):
                 inconclusive.append('failure in %s that no obligation covers: %s at %s' % (fnpath, d['message'][:120], p.get('where')))
-    return obl, new, known_hit, inconclusive, host_results
+    undecided_here = bool(hidden or helper_fail or shadowed)
+    return obl, new, known_hit, inconclusive, host_results, undecided_here
 
 
-WITNESS_PROPS = ('C01', 'C02', 'C04', 'C07', 'C08', 'C15', 'C16')
+WITNESS_PROPS = ('C01', 'C02', 'C04', 'C07', 'C08', 'C15', 'C16', 'C03', 'C05', 'C06', 'C09', 'C12')
+LISTENER_PROPS = ('C03', 'C05', 'C06', 'C09', 'C12')
 _witness_cache = {}
+
+
+def witness_tool(pid, w):
+    return 'listener' if (pid in LISTENER_PROPS and (w or '').startswith('server config')) else 'scenarios'
 
 
 def find_witness(pid, tier):
     """bounded scenario sweep against the REAL Worker (replay crate); returns the first witness line for pid or None"""
-    key = tier
+    key = (tier, pid in LISTENER_PROPS)
     if key not in _witness_cache:
-        args = ['cargo', 'run', '--offline', '-q', '--release', '--bin', 'scenarios', '--', 'all'] + (['--quick'] if tier == 'quick' else [])
+        if pid in LISTENER_PROPS:
+            args = ['cargo', 'run', '--offline', '-q', '--release', '--bin', 'listener', '--', 'all']
+        else:
+            args = ['cargo', 'run', '--offline', '-q', '--release', '--bin', 'scenarios', '--', 'all'] + (['--quick'] if tier == 'quick' else [])
         p = subprocess.run(args, cwd=os.path.join(VERIF, 'replay'), env=dict(os.environ, CARGO_NET_OFFLINE='true'),
                            stdout=subprocess.PIPE, stderr=subprocess.DEVNULL, text=True)
         _witness_cache[key] = [l for l in p.stdout.split('\n') if l.startswith('WITNESS')]
     for l in _witness_cache[key]:
         if l.startswith('WITNESS property=%s ' % pid):
             return l.split('first: ', 1)[-1]
+    if pid == 'C09':
+        # C09 also has a transfer-level aspect (the worker uses the negotiated values): ask the scenario sweep as well
+        p = subprocess.run(['cargo', 'run', '--offline', '-q', '--release', '--bin', 'scenarios', '--', 'C09', '--quick'], cwd=os.path.join(VERIF, 'replay'),
+                           env=dict(os.environ, CARGO_NET_OFFLINE='true'), stdout=subprocess.PIPE, stderr=subprocess.DEVNULL, text=True)
+        for l in p.stdout.split('\n'):
+            if l.startswith('WITNESS property=C09 '):
+                return l.split('first: ', 1)[-1]
     return None
 
 
@@ -772,7 +790,8 @@ def main():
         # (external_body, contract assumed) so that everything else is still decided; their own obligations are
         # undecided unless the witness finder produces a concrete failing run.
         quarantined = set(pre_quarantined)
-        for _round in range(3):
+        stripped = set()
+        for _round in range(5):
             if not ana['compile_error']:
                 break
             q = set()
@@ -789,8 +808,11 @@ def main():
                         for (f2, p2) in uni.contracted:
                             if f2 == loc['file'] and last_seg(p2) == loc['fn']:
                                 q.add((f2, p2))
-            q = set(x for x in q if x in uni.contracted or any(x[0] == c[0] and x[1] == c[1] for c in uni.contracted)) - quarantined
-            if not q:
+            q = set(x for x in q if x in uni_full.contracted or x in uni.contracted)
+            again = q & quarantined
+            if again - stripped:
+                stripped |= again          # still failing although quarantined: drop the contract as well
+            elif not (q - quarantined):
                 break
             quarantined |= q
             extra = {}
@@ -798,7 +820,7 @@ def main():
                 extra.setdefault(fname, []).append(blk)
             try:
                 info = weave.weave_all(os.path.join(REPO, 'src'), os.path.join(VERIF, 'contracts'), os.path.join(VERIF, 'spec'), woven,
-                                       extra_blocks=extra, skip_hints_for=degraded, quarantine=quarantined)
+                                       extra_blocks=extra, skip_hints_for=degraded, quarantine=quarantined, strip=stripped)
             except AnchorError as ex:
                 print('INCONCLUSIVE: anchor lost: %s' % ex)
                 sys.exit(2)
@@ -827,7 +849,7 @@ def main():
             for x in ana['inconclusive']:
                 print('   inconclusive:', x)
         for pid in pids:
-            obl, new, known_hit, inconclusive, hosts = decide(pid, uni, ana, known)
+            obl, new, known_hit, inconclusive, hosts, undecided_here = decide(pid, uni, ana, known)
             prc = 0
             if not obl:
                 print('%s: no obligations are tagged with this property (not claimed)' % pid)
@@ -888,9 +910,26 @@ def main():
                             json.dump({'property': pid, 'failed_obligation': 'bounded stand-in: scenario sweep against the real Worker (the changed code could not be verified: %s)' % '; '.join(ana['inconclusive'][:2])[:400],
                                        'obligation_clause': 'executable twin of the property oracle in replay/src/bin/scenarios.rs', 'function': 'Worker::send / Worker::receive', 'file': 'src/worker.rs, src/window.rs',
                                        'verifier': 'bounded execution of the real code', 'counterexample': w,
-                                       'replay_cmd': 'cd /verif/replay && cargo run --offline -q --release --bin scenarios -- %s' % pid,
+                                       'replay_cmd': 'cd /verif/replay && cargo run --offline -q --release --bin %s -- %s' % (witness_tool(pid, w), pid),
                                        'verifier_output': [{'message': x} for x in ana['inconclusive'][:5]]}, f, indent=1)
                     print('VIOLATION property=%s replay=%s stand-in=scenarios (changed code is outside the verifier\'s reach; concrete failing run: %s)' % (pid, rp, w[:200]))
+                    prc = 1
+            if undecided_here and prc == 0 and not new and pid in WITNESS_PROPS and REPO == '/repo':
+                # obligations of this property are undecided (uncontracted helper hides facts, failure inside a new helper,
+                # consequence of a panic obligation): only a concrete failing run of the real code may raise an alarm
+                w = find_witness(pid, tier)
+                if w:
+                    rp = '-'
+                    if not a.no_evidence:
+                        os.makedirs(os.path.join(VERIF, 'replays'), exist_ok=True)
+                        rp = os.path.join(VERIF, 'replays', '%s-witness.json' % pid)
+                        with open(rp, 'w') as f:
+                            json.dump({'property': pid, 'failed_obligation': 'undecided obligations: ' + '; '.join(x for x in inconclusive if 'undecided' in x)[:600],
+                                       'obligation_clause': 'executable twin of the property oracle in the replay crate', 'function': '(see failed_obligation)', 'file': 'src/',
+                                       'verifier': 'verus left the obligations undecided; bounded execution of the real code found a failing run', 'counterexample': w,
+                                       'replay_cmd': 'cd /verif/replay && cargo run --offline -q --release --bin %s -- %s' % (witness_tool(pid, w), pid),
+                                       'verifier_output': [{'message': x} for x in inconclusive[:6]]}, f, indent=1)
+                    print('VIOLATION property=%s replay=%s stand-in=%s (obligations undecided by the verifier; concrete failing run: %s)' % (pid, rp, witness_tool(pid, w), w[:220]))
                     prc = 1
             if degraded_only and prc == 0:
                 inconclusive = list(inconclusive) + ['function changed so much that its proof hints no longer apply (%s); obligations %s fail without them and the witness finder found no concrete failing run'
